@@ -238,7 +238,8 @@ func (s *c44Steer) apply(o c44Op) {
 	}
 }
 
-var c44Segs = []string{"a", "b", "c"}
+// "ab" is a string prefix sibling of "a": names that share a prefix without being nested.
+var c44Segs = []string{"a", "b", "c", "ab"}
 
 func c44Gen(t *rapid.T) c44Case {
 	wild := rapid.IntRange(0, 9).Draw(t, "wild") == 0
